@@ -60,7 +60,9 @@ func (v *VerifC15) MouseUpdate(s Surface) error           { return v.mh.update(v
 func (v *VerifC15) MouseExit() error                      { return v.mh.mouseExit(v.App) }
 
 // Render is Surface.render on the root window with the focused widget, as in App.Run
-func (v *VerifC15) Render(s Surface) { s.render(v.App.vx.Window(), v.App.fh.focused) }
+func (v *VerifC15) Render(s Surface) {
+	s.render(v.App.vx.Window().New(0, 0, int(s.Size.Width), int(s.Size.Height)), v.App.fh.focused)
+}
 
 func (v *VerifC15) Snapshot() VerifC15State {
 	a := v.App
